@@ -99,7 +99,7 @@ def snap(real):
 
 class C03(StructBase):
     id = "C03"
-    modules = ["EG.Props.C03"]
+    modules = ["EG.Props.C03", "EG.Props.C09Unlink", "EG.Props.C11Readback"]
     assumptions = C01.assumptions
 
     def witnesses(self):
@@ -229,20 +229,11 @@ class C02(StructBase):
 
     def batches(self, tier, rng, real):
         sz = sizes(tier)
-        # the caller keeps (and later edits) the edge_whitelist dicts it passed to the constructor
-        real.inner.keep_mode = True
-        try:
-            for _name, lines, pool in self.seeds():
-                yield from gen.enumerate_histories(real, lines, pool, self.opsfn, sz["depth"] + 1)
-
-            def with_edits(p, rng_):
-                yield "lawset %d" % rng_.choice([1, 2, 3])
-                yield "mut %d %d" % (rng_.randrange(10 ** 6), rng_.randrange(10 ** 6))
-            for _ in range(sz["rand"]):
-                fn = all_ops if rng.random() < 0.3 else self.opsfn
-                yield gen.random_history(rng, real, fn, rng.randint(3, sz["rlen"]), extra=with_edits)
-        finally:
-            real.inner.keep_mode = False
+        for _name, lines, pool in self.seeds():
+            yield from gen.enumerate_histories(real, lines, pool, self.opsfn, sz["depth"] + 1)
+        for _ in range(sz["rand"]):
+            fn = all_ops if rng.random() < 0.3 else self.opsfn
+            yield gen.random_history(rng, real, fn, rng.randint(3, sz["rlen"]))
 
     def pre(self, real, line):
         return snap(real)
